@@ -157,7 +157,8 @@ def gen_spec(rng, thorough):
     if anomaly == 'dangling' and nodes:
         deletions = sorted(set(rng.randrange(len(nodes)) for _ in range(rng.randint(1, 3))))
     return {'assocs': assocs, 'nss': nss, 'nodes': nodes, 'links': links, 'anomaly': anomaly,
-            'deletions': deletions, 'qseed': rng.randrange(1 << 30)}
+            'deletions': deletions, 'qseed': rng.randrange(1 << 30),
+            'pull': rng.choice([False, None, True])}      # use_pull_operations of the connection (Iter... variants)
 
 
 # --------------------------------------------------------------------------- building the real repository
@@ -172,7 +173,7 @@ def build(spec):
     import pywbem
     import mockutil
     notes = {}
-    conn = mockutil.new_conn(schema_mof(spec['assocs']), spec['nss'])
+    conn = mockutil.new_conn(schema_mof(spec['assocs']), spec['nss'], use_pull_operations=spec.get('pull', False))
     for nd in spec['nodes']:
         inst = pywbem.CIMInstance(nd[1], properties={'id': nd[2]})
         try:
@@ -430,6 +431,8 @@ def anomalies_of(conn, ns, paths, keys):
     (paths = symmetric difference between real and expected, or the names the full operation choked on)"""
     kinds = set()
     want = set(paths)
+    # results carry the server's host where the stored values have none
+    want |= set((c, n, None, k) for c, n, h, k in paths if h == conn.host.lower())
     if not has_ns(conn, ns):
         return kinds
     store = conn.cimrepository.get_instance_store(ns)
@@ -679,6 +682,51 @@ def filter_values(rng, existing, nonexist):
     return nonexist
 
 
+def ancestors(conn, ns, cls):
+    """cls and its superclasses as stored (names as spelled in the class store)"""
+    cidx = class_index(conn, ns)
+    out, cur, seen = [], cls.lower(), set()
+    while cur is not None and cur in cidx and cur not in seen:
+        seen.add(cur)
+        out.append(cidx[cur].classname)
+        cur = cidx[cur].superclass.lower() if cidx[cur].superclass else None
+    return out or [cls]
+
+
+def relevant_filter(conn, ns, x, rng):
+    """a filter tuple derived from a stored association instance that references x (so that the result is
+    usually non-empty with several filters active), each component then kept / dropped / recased"""
+    if not has_ns(conn, ns):
+        return None
+    y = x.copy()
+    y.namespace = ns
+    y.host = None
+    hits = []
+    for a in conn.cimrepository.get_instance_store(ns).iter_values(copy=False):
+        refs = [(p.name, p.value) for p in a.properties.values() if p.type == 'reference' and p.value is not None]
+        for pn, pv in refs:
+            if pv == y:
+                others = [(qn, qv) for qn, qv in refs if qn != pn]
+                hits.append((a, pn, others))
+    if not hits:
+        return None
+    a, pn, others = rng.choice(hits)
+    f = {'ac': rng.choice(ancestors(conn, ns, a.classname)), 'role': pn, 'rc': None, 'rrole': None}
+    if others:
+        qn, qv = rng.choice(others)
+        f['rrole'] = qn
+        f['rc'] = rng.choice(ancestors(conn, ns, qv.classname))
+    for k in f:
+        r = rng.random()
+        if f[k] is None:
+            continue
+        if r < 0.25:
+            f[k] = None
+        elif r < 0.50:
+            f[k] = recase(f[k], rng)
+    return f
+
+
 def gen_requests(spec, conn, rng, thorough):
     """list of request groups; each group = dict(base=req(AN/RN), …) evaluated by run_repo"""
     import pywbem
@@ -705,9 +753,12 @@ def gen_requests(spec, conn, rng, thorough):
     groups = []
     for ns, p in sources:
         for t in range(per_src):
+            f = None
             if t == 0:
                 f = {'ac': None, 'rc': None, 'role': None, 'rrole': None}
-            else:
+            elif t % 2 == 1:
+                f = relevant_filter(conn, ns, p, rng)
+            if f is None:
                 f = {'ac': filter_values(rng, assoc_names, 'C13_NoAssoc'),
                      'rc': filter_values(rng, node_names, 'C13_NoNode'),
                      'role': filter_values(rng, roles, 'norole'),
@@ -819,6 +870,7 @@ def run_repo(spec, only_req=None):
     for k, v in notes.items():
         count('build:' + k, v)
     count('anomaly:%s' % spec['anomaly'])
+    count('use_pull_operations:%s' % spec.get('pull', False))
     reqs, reals, cases = [], [], []
 
     def do(req):
@@ -927,7 +979,7 @@ def _work(spec):
 
 def run(run):
     rng = run.rng
-    n = 220 if run.thorough else 60
+    n = 150 if run.thorough else 60
     run.rule = ('seeded random repositories: 5 node classes in 2 hierarchies, 1-4 random binary/ternary association '
                 'classes (random roles incl. recased, REF classes incl. recased, optional non-key ends) with 0-2 '
                 'subclasses each, 1-3 namespaces, up to 16 (thorough 30) nodes with colliding ids, up to 20 (40) '
@@ -935,9 +987,10 @@ def run(run):
                 'ends outside the declared class) plus one anomaly kind per repository loaded with add_cimobjects or '
                 'produced by DeleteInstance (reference without namespace / with host / recased / dangling end / unknown '
                 'namespace / one-sided cross-namespace); every stored instance and near-miss paths as source x sampled '
-                'tuples of the four filters from {None, "", existing, recased, non-existing}; every class and near-miss '
+                'tuples of the four filters from {None, "", existing, recased, non-existing}, half of them derived from a '
+                'stored association instance that references the source (then kept / dropped / recased per component); every class and near-miss '
                 'names at class level; each tuple also with each active filter removed (monotonicity), recased '
-                '(case-insensitivity), reversed (symmetry) and through the Open/Pull and Iter variants; a case = one '
+                '(case-insensitivity), reversed (symmetry) and through the Open/Pull and Iter variants (connections with use_pull_operations False / None / True); a case = one '
                 '(repository, source, operation pair, filter tuple); non-trivial = non-empty result')
     run.assumptions += [
         'keybinding equality of instance paths is decided by the real CIMInstanceName/NocaseDict equality in the harness '
